@@ -260,6 +260,22 @@ func handle(rq Req) (resp map[string]interface{}) {
 				resp["dump"] = process.VerifDumpProgram(procs, genv)
 			}
 		}
+	case "forms":
+		// parse only; every function / process body printed by Form.String(), next to the dump of the program (C15, process terms)
+		procs, _, genv, err := parser.ParseString(rq.Text)
+		resp["parse"] = errStr(err)
+		if err != nil {
+			return
+		}
+		var fb, pb []string
+		for _, f := range *genv.FunctionDefinitions {
+			fb = append(fb, f.Body.String())
+		}
+		for _, p := range procs {
+			pb = append(pb, p.Body.String())
+		}
+		resp["funcbodies"], resp["procbodies"] = fb, pb
+		resp["dump"] = process.VerifDumpProgram(procs, genv)
 	case "lex":
 		out := captureStdout(func() { parser.LexAndPrintTokens(strings.NewReader(rq.Text)) })
 		var toks [][2]string
